@@ -157,7 +157,7 @@ structure Layer where
   dims : List Nat
   data : Nat
 
-inductive Why where | dims | exists | clash | ufunc | mode | empty | radius
+inductive Why where | dims | exists | clash | ufunc | mode | empty | radius | size0
 deriving Repr, DecidableEq
 
 inductive Err where
@@ -353,14 +353,16 @@ def cellGet (s : State) (name : String) (c : Coord) : Out :=
 /-! ### the same layer object on a second grid -/
 
 /-- `g2 = OrthogonalMooreGrid(layer.dimensions); g2.add_property_layer(layer)`: a second grid of the layer's
-    shape takes the layer exactly when the first would — not under the name of its own built-in `empty` layer,
-    not under a name of the cell class — and its cells then have the attribute too.  `c` is one of its cells. -/
+    shape (no grid has a zero dimension: `ValueError`, a free-standing layer may) takes the layer exactly when the
+    first would — not under the name of its own built-in `empty` layer, not under a name of the cell class — and
+    its cells then have the attribute too.  `c` is one of its cells. -/
 def otherGridCheck (s : State) (lid : Nat) (c : Coord) : Except Err Layer :=
   if s.impl ≠ .new then .error .impl else
   match s.layer? lid with
   | none => .error .noLayer
   | some l =>
-    if l.name = "empty" then .error (.value .exists)
+    if 0 ∈ l.dims then .error (.value .dims)
+    else if l.name = "empty" then .error (.value .exists)
     else if l.name ∈ reservedNames then .error (.value .clash)
     else if !inBounds l.dims c then .error .index
     else .ok l
@@ -383,6 +385,20 @@ def condHolds (cond : Option (Int → Bool)) (x : Int) : Bool :=
   match cond with
   | none => true
   | some p => p x
+
+/-- has layer `lid` an array without entries?  Only a free-standing `PropertyLayer` of the new implementation can
+    (`np.full((0, 2), …)` is accepted; grids and legacy layers refuse a zero dimension). -/
+def State.noEntries (s : State) (lid : Nat) : Bool :=
+  match s.layer? lid with
+  | some l => (cells l.dims).isEmpty
+  | none => false
+
+/-- `np.vectorize(g)(layer.data)` — how `set_cells` / `modify_cells` evaluate a condition and how `modify_cells`
+    applies a Python function — refuses an array without entries (`ValueError: cannot call vectorize on size 0
+    inputs`) before anything is written; `vectorizes` says whether the call gets that far (it has a condition, or
+    its operation is a Python function and not a ufunc) -/
+def vecGuard (s : State) (lid : Nat) (vectorizes : Bool) (k : State × Out) : State × Out :=
+  if vectorizes && s.noEntries lid then (s, .err (.value .size0)) else k
 
 /-- `set_cells(value, condition)`: `np.copyto(data, value[, where=cond(data)])` — in place -/
 def setCells (s : State) (lid : Nat) (v : Int) (cond : Option (Int → Bool)) : State × Out :=
@@ -420,7 +436,8 @@ def setCellsV (s : State) (lid : Nat) (x : Val) (cond : Option (Int → Bool)) :
 /-- `set_cells(arr, condition)` / `grid.set_property(name, arr, condition)` / `layer.data = arr` with an *array*
     value the user holds, of the layer's shape (another shape is a protocol error here: numpy would broadcast
     or raise): `np.copyto(data, arr[, where=cond(data)])` — in place, point-wise `arr[c]` where the old entry
-    satisfies the condition; the array's dtype must be `same_kind`-castable (`TypeError` otherwise) -/
+    satisfies the condition (evaluated by `np.vectorize` first: `ValueError` on a layer without entries); the
+    array's dtype must be `same_kind`-castable (`TypeError` otherwise) -/
 def setFrom (s : State) (lid : Nat) (h : Nat) (cond : Option (Int → Bool)) : State × Out :=
   match s.layer? lid with
   | none => (s, .err .noLayer)
@@ -429,6 +446,7 @@ def setFrom (s : State) (lid : Nat) (h : Nat) (cond : Option (Int → Bool)) : S
     | none => (s, .err .noHandle)
     | some (a, dims) =>
       if dims ≠ l.dims then (s, .err (.value .dims))
+      else if cond.isSome && (cells l.dims).isEmpty then (s, .err (.value .size0))
       else if !sameKind (s.adt a) (s.adt l.data) then (s, .err .type)
       else
         let src := s.heap a
@@ -759,6 +777,8 @@ inductive MaskRef where
   | lit (m : Coord → Bool)
   | saved (k : Nat)
 
+/-- `vec` of `modifyCells` / `modifyU`: the operation is a Python function (applied through `np.vectorize`), not a ufunc;
+    `modifyT` is always the Python-function form -/
 inductive Op where
   | create (name : String) (dt : DType) (default : WVal)
   | newLayer (name : String) (dims : List Nat) (dt : DType) (default : WVal)
@@ -772,9 +792,9 @@ inductive Op where
   | cellGet2 (lid : Nat) (c : Coord)
   | setCells (lid : Nat) (v : WVal) (cond : Option (Int → Bool))
   | setFrom (lid : Nat) (h : Nat) (cond : Option (Int → Bool))
-  | modifyCells (lid : Nat) (f : Option (Int → Int)) (cond : Option (Int → Bool))
+  | modifyCells (lid : Nat) (vec : Bool) (f : Option (Int → Int)) (cond : Option (Int → Bool))
   | modifyT (lid : Nat) (f : Option (Int → Int)) (cond : Option (Int → Bool)) (rd : DType)
-  | modifyU (lid : Nat) (op : UOp) (x : Val) (cond : Option (Int → Bool))
+  | modifyU (lid : Nat) (vec : Bool) (op : UOp) (x : Val) (cond : Option (Int → Bool))
   | modifyCell (lid : Nat) (c : Coord) (f : Option (Int → Int))
   | modifyCellU (lid : Nat) (c : Coord) (op : UOp) (x : Val)
   | grab (h : Nat) (lid : Nat)
@@ -829,12 +849,12 @@ def step (s : State) : Op → State × Out
   | .cellGet n c => (s, cellGet s n c)
   | .cellSet2 l c w => cellSet2 s l c w
   | .cellGet2 l c => (s, cellGet2 s l c)
-  | .setCells l (.raw v) cond => setCells s l v cond
-  | .setCells l (.py x) cond => setCellsV s l x cond
+  | .setCells l (.raw v) cond => vecGuard s l cond.isSome (setCells s l v cond)
+  | .setCells l (.py x) cond => vecGuard s l cond.isSome (setCellsV s l x cond)
   | .setFrom l h cond => setFrom s l h cond
-  | .modifyCells l f cond => modifyCells s l f cond
-  | .modifyT l f cond rd => modifyCellsT s l f cond rd
-  | .modifyU l op x cond => modifyU s l op x cond
+  | .modifyCells l vec f cond => vecGuard s l (cond.isSome || vec) (modifyCells s l f cond)
+  | .modifyT l f cond rd => vecGuard s l true (modifyCellsT s l f cond rd)
+  | .modifyU l vec op x cond => vecGuard s l (cond.isSome || vec) (modifyU s l op x cond)
   | .modifyCell l c f => modifyCell s l c f
   | .modifyCellU l c op x => modifyCellU s l c op x
   | .grab h l => grab s h l
